@@ -47,10 +47,41 @@ func tomlStrs(l []string) string {
 	return "[" + strings.Join(it, ", ") + "]"
 }
 
+// gwCfg: the ssh tunnel gateway part of a configuration (nil = gateway off)
+type gwCfg struct {
+	port    int
+	akFile  string // authorized_keys
+	hostKey string // autoGenPrivateKeyPath
+}
+
+// seconds frps waits for a work connection; 1 only in the cases whose plugin answers later than that
+var sysUserConnTimeout = 10
+
+var sysGateway *gwCfg
+
+// write the configuration as a legacy INI file ([common] + [plugin.<name>] sections; names are keys there)
+var sysINI = false // set by the gateway scenarios around startFromConfigFile
+
 func configText(addr string, port int, entries []cfgEntry, scopes bool, asJSON bool) string {
+	return configTextWith(addr, port, entries, scopes, asJSON, sysUserConnTimeout, sysGateway, sysINI)
+}
+
+func configTextWith(addr string, port int, entries []cfgEntry, scopes bool, asJSON bool, sysUserConnTimeout int, gw *gwCfg, sysINI bool) string {
+	if sysINI {
+		var b strings.Builder
+		fmt.Fprintf(&b, "[common]\nbind_addr = %s\nbind_port = %d\nproxy_bind_addr = %s\nuser_conn_timeout = %d\ntcp_mux = false\n", addr, port, addr, sysUserConnTimeout)
+		fmt.Fprintf(&b, "authentication_method = token\ntoken = %s\n", hx.DefaultToken)
+		if scopes {
+			b.WriteString("authenticate_heartbeats = true\nauthenticate_new_work_conns = true\n")
+		}
+		for _, e := range entries {
+			fmt.Fprintf(&b, "\n[plugin.%s]\naddr = %s\npath = /handler\nops = %s\n", e.name, e.addr, strings.Join(e.ops, ","))
+		}
+		return b.String()
+	}
 	if asJSON {
 		m := map[string]any{"bindAddr": addr, "bindPort": port, "proxyBindAddr": addr,
-			"userConnTimeout": 1,
+			"userConnTimeout": sysUserConnTimeout,
 			"transport":       map[string]any{"tcpMux": false},
 			"auth":            map[string]any{"method": "token", "token": hx.DefaultToken}}
 		if scopes {
@@ -70,14 +101,21 @@ func configText(addr string, port int, entries []cfgEntry, scopes bool, asJSON b
 		if len(ps) > 0 {
 			m["httpPlugins"] = ps
 		}
+		if gw != nil {
+			m["sshTunnelGateway"] = map[string]any{"bindPort": gw.port, "authorizedKeysFile": gw.akFile, "autoGenPrivateKeyPath": gw.hostKey}
+		}
 		b, _ := json.MarshalIndent(m, "", "  ")
 		return string(b)
 	}
 	var b strings.Builder
-	fmt.Fprintf(&b, "bindAddr = %s\nbindPort = %d\nproxyBindAddr = %s\nuserConnTimeout = 1\ntransport.tcpMux = false\n", tomlStr(addr), port, tomlStr(addr))
+	fmt.Fprintf(&b, "bindAddr = %s\nbindPort = %d\nproxyBindAddr = %s\nuserConnTimeout = %d\ntransport.tcpMux = false\n", tomlStr(addr), port, tomlStr(addr), sysUserConnTimeout)
 	fmt.Fprintf(&b, "auth.method = \"token\"\nauth.token = %s\n", tomlStr(hx.DefaultToken))
 	if scopes {
 		b.WriteString("auth.additionalScopes = [\"HeartBeats\", \"NewWorkConns\"]\n")
+	}
+	if gw != nil {
+		fmt.Fprintf(&b, "sshTunnelGateway.bindPort = %d\nsshTunnelGateway.authorizedKeysFile = %s\nsshTunnelGateway.autoGenPrivateKeyPath = %s\n",
+			gw.port, tomlStr(gw.akFile), tomlStr(gw.hostKey))
 	}
 	for _, e := range entries {
 		b.WriteString("\n[[httpPlugins]]\n")
@@ -90,11 +128,21 @@ func configText(addr string, port int, entries []cfgEntry, scopes bool, asJSON b
 }
 
 func startFromConfigFile(addr string, entries []cfgEntry, scopes bool, asJSON bool) (*sysServer, error) {
+	return startFromConfigFileWith(addr, entries, scopes, asJSON, sysUserConnTimeout, sysGateway, sysINI)
+}
+
+// startFromConfigFileWith takes everything as parameters (used from the background scenario, which must not
+// read the globals the sequential scenarios set around their own starts)
+func startFromConfigFileWith(addr string, entries []cfgEntry, scopes bool, asJSON bool, uct int, gw *gwCfg, ini bool) (*sysServer, error) {
+	sysINI := ini
 	port := hx.FreePort(addr)
-	text := configText(addr, port, entries, scopes, asJSON)
+	text := configTextWith(addr, port, entries, scopes, asJSON, uct, gw, ini)
 	ext := ".toml"
 	if asJSON {
 		ext = ".json"
+	}
+	if sysINI {
+		ext = ".ini"
 	}
 	f, err := os.CreateTemp("", "c15frps*"+ext)
 	if err != nil {
